@@ -21,6 +21,14 @@ class VirtualDeadlock(RuntimeError):
     """The loop would block forever: nothing ready, nothing scheduled."""
 
 
+class VirtualLivelock(BaseException):
+    """The code under observation keeps the loop busy without virtual time ever advancing (e.g. an unbounded reconnect
+    loop): the operation never terminates.  A BaseException so that library code cannot swallow it."""
+
+
+MAX_ITERATIONS_PER_INSTANT = 3_000_000
+
+
 class VLoop(asyncio.SelectorEventLoop):
     def __init__(self, net=None, start: float = 0.0) -> None:
         super().__init__()
@@ -34,8 +42,17 @@ class VLoop(asyncio.SelectorEventLoop):
             net.loop = self
         real_select = self._selector.select
 
+        self._spins = 0
+
         def select(timeout=None):
             self.select_calls += 1
+            if timeout is not None and timeout <= 0:
+                self._spins += 1
+                if self._spins > MAX_ITERATIONS_PER_INSTANT:
+                    self._spins = 0
+                    raise VirtualLivelock(f"{MAX_ITERATIONS_PER_INSTANT} loop iterations at virtual time {self._vtime:.3f} without progress of time")
+            else:
+                self._spins = 0
             if timeout is None:
                 # Only the self-pipe is registered; nothing can wake us.
                 events = real_select(0)
